@@ -91,6 +91,13 @@ class Loud {
         echo("~Loud" + this.id);
     }
 }
+class LoudKid extends Loud {
+    public int extra = 1;
+    public constructor(int id) -> LoudKid {
+        super(id);
+        return this;
+    }
+}
 class Pair {
     public Node a;
     public Node b;
@@ -288,6 +295,12 @@ SNIPPETS = [
     ("pending-tree-backpointers", ["echo(useT(mkTree({a}), garbage({b}) + burst(18)));"]),
     ("pending-tree-nested", ["echo(useT(mkTree({a}), useT(mkTree({b}), burst(20))));"]),
     ("tree-in-field-only", ["Pair {v} = new Pair(mk({a}), mk({b}));", "TFork {v}t = mkTree({a});", "int {w} = burst(18);", "echo(useT({v}t, {w}) + {v}.total());"]),
+    # a destructor inherited from a base class (the class of the cycle's members declares none itself)
+    ("loudkid-cycle", ["LoudKid {v} = new LoudKid({a});", "LoudKid {v}b = new LoudKid({b});", "{v}.peer = {v}b;", "{v}b.peer = {v};",
+                       "destroy {v};", "echo(garbage(2));", "echo(\"mid\");"]),
+    ("loudkid-cycle-scope", ["{", "    LoudKid {v} = new LoudKid({a});", "    Loud {v}b = new LoudKid({b});", "    {v}.peer = {v}b;",
+                             "    {v}b.peer = {v};", "}", "echo(burst(18));"]),
+    ("loudkid-acyclic", ["LoudKid {v} = new LoudKid({a});", "echo(spin(2));", "destroy {v};", "echo(garbage(2));"]),
     ("binary-operands", ["echo(new Node({a}).val() + garbage({b}) + new Node({b}).val());"]),
 ]
 
